@@ -421,6 +421,31 @@ func c17Run(c *Ctx, hook func(bt *scratch.Batch) error) error {
 					si++
 				}
 			}
+			// ---- one request OBJECT kept by the caller and updated in place between calls (three calls per client on a
+			// body-verb route, binary and JSON transport): what an earlier call left inside the object (cached sizes,
+			// a nil-ed child) must not change a later call
+			for _, cl := range clients {
+				var body []*methodInfo
+				for _, mi := range bySvc[cl.svc.Name] {
+					if mi.bodyVerb() {
+						body = append(body, mi)
+					}
+				}
+				if len(body) == 0 {
+					continue
+				}
+				mi := gen.Pick(rr, body)
+				for rep := 0; rep < 3; rep++ {
+					k := mkCall(si, mi, cl, true)
+					k.op["reuse_object"] = fmt.Sprintf("%s-%s-%s", cl.svc.Name, cl.key, mi.m.Name)
+					k.op["call_ct"] = []string{"application/x-protobuf", "application/x-protobuf", "application/json"}[rep]
+					k.callCT = fmt.Sprint(k.op["call_ct"])
+					k.classes = append(k.classes, "reused_request_object")
+					sort.Strings(k.classes)
+					rd.seq = append(rd.seq, k)
+					si++
+				}
+			}
 			// ---- executions ----
 			var ops []any
 			for _, k := range rd.calls {
